@@ -19,7 +19,12 @@ type c07Scenario struct {
 var profClose = mux.Profile{Name: "close", Variants: []int{mux.VariantLL, mux.VariantLL, mux.VariantFMP4, mux.VariantMPEGTS}, LeadUnits: [2]int{10, 140}, MaxAudio: 2, ParamRate: 2, AllowDisk: true, SegCountMax: 8}
 
 // the same with a small SegmentMaxSize: some Write is rejected, Close follows that rejection
-var profCloseSmall = func() mux.Profile { p := profClose; p.Name = "close-small"; p.SmallMax, p.OversizedRA = true, true; return p }()
+var profCloseSmall = func() mux.Profile {
+	p := profClose
+	p.Name = "close-small"
+	p.SmallMax, p.OversizedRA = true, true
+	return p
+}()
 
 func drawC07(t *rapid.T) c07Scenario {
 	prof := profClose
